@@ -136,6 +136,40 @@ def check(ctx):
             if tt[-1] != 0.0 or any(tt[i] <= tt[i + 1] for i in range(T - 1)):
                 ctx.fail("time to maturity is not strictly decreasing to exactly zero", case,
                          key="time_to_maturity:monotone", detail={"tail": tt[-3:]})
+    # ---------- derivatives with several underliers: every underlier gets the grid of the current maturity
+    from pfhedge.instruments import BaseDerivative
+
+    class Spread(BaseDerivative):
+        def __init__(self, a, b, maturity):
+            super().__init__()
+            self.register_underlier("first", a)
+            self.register_underlier("second", b)
+            self.maturity = maturity
+
+        def payoff_fn(self):
+            return torch.relu(self.get_underlier("first").spot[..., -1] - self.get_underlier("second").spot[..., -1])
+
+    for _ in range(20 if ctx.tier == "quick" else 300):
+        dtm = g.choice([1 / 250, 1 / 12, 0.1])
+        pa, pb = g.choice(PRIMS[:3] + PRIMS[4:6]), g.choice(PRIMS[:3] + PRIMS[4:6])
+        a_, b_ = make_primary(I, torch, pa, dtm, None), make_primary(I, torch, pb, dtm, None)
+        k1, k2 = g.randint(1, 30), g.randint(1, 30)
+        sp = Spread(a_, b_, k1 * dtm)
+        case = {"multi_underlier": [pa, pb], "dt": dtm, "maturities": [k1 * dtm, k2 * dtm]}
+        ctx.case(case, True, tag="multi_underlier")
+        ctx.traces += 1
+        for kk in (k1, k2):
+            sp.maturity = kk * dtm
+            st, v, _ = call_impl(sp.simulate, n_paths=2)
+            if st != "ok":
+                ctx.fail("simulate of a two-underlier derivative raised", case, key="simulate:multi-underlier:error", detail=v)
+                break
+            want = expected_points(kk * dtm, dtm)
+            shapes = [tuple(u_.spot.shape) for u_ in sp.underliers()]
+            if any(sh[0] != 2 or sh[1] not in want for sh in shapes) or tuple(sp.payoff().shape) != (2,):
+                ctx.fail("not every underlier of a derivative is simulated on the grid of the current maturity", case | {"maturity": kk * dtm},
+                         key="simulate:multi-underlier:grid", detail={"shapes": shapes, "expected_points": sorted(want)})
+                break
     # ---------- time_to_maturity replica (float64 instruments: bit-exact)
     treqs, tmeta = [], []
     for _ in range(150 if ctx.tier == "quick" else 2000):
